@@ -766,6 +766,19 @@ def step (st : DState) (line : String) : DState × String :=
         | .ok none => "err"
         | .ok (some m) => s!"ok {showMsg m} | {bytesToHex (Krpc.toBytes m)}")
       | none => "bad-op")
+  | ["encval", n] => (st, match n.toNat? with
+      | some n =>
+        let v : Bytes := (List.range n).map fun i => UInt8.ofNat ((i * 7 + 3) % 256)
+        let idOf (b : UInt8) : Id := ⟨List.replicate 20 b⟩
+        let m1 : Message := ⟨7, none, none, .response (.getImmutable (idOf 1) [9, 9] none v), false⟩
+        let m2 : Message := ⟨7, none, none, .response (.getMutable (idOf 1) [9, 9] none v (List.replicate 32 3) 5 (List.replicate 64 4)), false⟩
+        let one (what : String) (m : Message) : String :=
+          let bs := Krpc.toBytes m
+          match Krpc.fromBytes bs with
+          | .ok (some m') => if showMsg m' == showMsg m then s!"{what}:ok:{bs.length}" else s!"{what}:err"
+          | _ => s!"{what}:err"
+        one "immutable" m1 ++ " " ++ one "mutable" m2
+      | none => "bad-op")
   | ["enctid", n] => (st, match n.toNat? with
       | some n =>
         let m : Message := ⟨UInt32.ofNat n, none, none, .request ⟨⟨List.replicate 20 1⟩, .ping⟩, false⟩
